@@ -59,13 +59,18 @@ def verify(sid: str, run_tests=True):
                 res["tests_with_patch"] = ("pass: " + (tail[-1].strip("= ") if tail else "rc=0")) if rc == 0 else f"FAIL rc={rc}: " + (tail[-1] if tail else out[-300:])
             caught = {}
             env2 = dict(os.environ, SV_EVIDENCE_DIR=os.path.join(tmp, "ev"), SV_OUT_DIR=os.path.join(tmp, "out"))
-            for pid in PIDS:
-                if not os.path.exists(os.path.join(HERE, "rules", f"{pid}.py")):
-                    continue
-                rc, out = sh([PY, os.path.join(HERE, "run.py"), pid, "--repo", tmp], env=env2)
-                if rc != 0:
-                    rules = sorted({l.split("rule=")[1].split()[0] for l in out.splitlines() if "rule=" in l})
-                    caught[pid] = {"exit": rc, "rules": rules} if rc == 1 else {"exit": rc, "output": out[-300:]}
+            if os.environ.get("SV_PER_PROCESS"):
+                for pid in PIDS:
+                    rc, out = sh([PY, os.path.join(HERE, "run.py"), pid, "--repo", tmp], env=env2)
+                    if rc != 0:
+                        rules = sorted({l.split("rule=")[1].split()[0] for l in out.splitlines() if "rule=" in l})
+                        caught[pid] = {"exit": rc, "rules": rules} if rc == 1 else {"exit": rc, "output": out[-300:]}
+            else:
+                rc, out = sh([PY, os.path.join(HERE, "runall.py"), "--repo", tmp], env=env2)
+                allres = json.loads(out.strip().splitlines()[-1])
+                for pid, r in allres.items():
+                    if r["exit"] != 0:
+                        caught[pid] = {"exit": r["exit"], "rules": r["rules"]} if r["exit"] == 1 else {"exit": r["exit"], "output": r["output"][-300:]}
             res["checks_reporting"] = caught
     finally:
         shutil.rmtree(tmp, ignore_errors=True)
